@@ -135,18 +135,38 @@ func runFromPath(c Case, hook Hook) GoOut {
 		bare[i] = errors.New(strings.ReplaceAll(e.Error(), libDir+string(filepath.Separator), ""))
 	}
 	out.Dump = lib.DumpOutcome(ms, bare)
-	out.Extra = map[string][]string{"loaded": loadedOrder(c, ms, roots, libDir)}
+	loaded, late, why := loadedOrder(c, ms, roots, libDir)
+	out.Extra = map[string][]string{"loaded": loaded}
+	if len(late) > 0 {
+		out.Extra["late_loaded"] = late
+	}
+	if why != "" {
+		out.Extra["no_model"] = []string{why}
+	}
 	if hook != nil {
 		hook(c, ms, bare, &out)
 	}
 	return out
 }
 
-// loadedOrder reconstructs which texts are loaded and in which order: the roots as handed over,
-// then what the linking walk of process() (explicitly loaded modules in full-name order; per
-// module its includes, then its imports, depth first, stopping at the first miss) reads from the
-// path at first encounter; anything loaded that the walk does not explain comes last, by name.
-func loadedOrder(c Case, ms *yang.Modules, roots []int, lib string) []string {
+// loadedOrder reads the loaded set off the Modules value after Process: every distinct module and
+// submodule, identified by the file name of its source; the roots first, in the order handed
+// over, then the rest by file name (the model's outcome does not depend on the load order of
+// texts with pairwise distinct headers).
+//
+// late: full names of the (sub)modules that were read from the path AFTER the linking walk of
+// process(): loaded, not handed over, and not reachable from a handed-over module through
+// import / include statements that the walk linked (i.Module set).  goyang reads such a module
+// when a prefix or grouping lookup meets an import that was never linked (only a submodule was
+// handed over, or the walk stopped at a missing module); it never looks at that module's own
+// imports, and depending on when it arrives the later phases of Process may not see it.  Reading
+// from the path is outside the model, and a run that is handed the same texts links them all,
+// so the model is not asked for such a run.
+//
+// why: reason the model is not asked ("" when it is): a late module, or two loaded (sub)modules
+// with the same name (revisions of one module: which one a bare name denotes depends on when
+// each was read).
+func loadedOrder(c Case, ms *yang.Modules, roots []int, lib string) (loaded, late []string, why string) {
 	fileOf := func(m *yang.Module) string {
 		if m == nil || m.Source == nil {
 			return ""
@@ -159,79 +179,79 @@ func loadedOrder(c Case, ms *yang.Modules, roots []int, lib string) []string {
 		}
 		return strings.TrimPrefix(loc, lib+string(filepath.Separator))
 	}
-	var loaded []string
 	have := map[string]bool{}
 	add := func(n string) {
-		if n != "" && !have[n] {
+		if !have[n] {
 			have[n] = true
 			loaded = append(loaded, n)
 		}
 	}
+	isRoot := map[string]bool{}
 	for _, i := range roots {
-		add(c.Names[i])
+		isRoot[c.Names[i]] = true
 	}
-	var start []*yang.Module
+	present := map[string]bool{}
 	seen := map[*yang.Module]bool{}
-	for _, m := range ms.Modules {
-		if !seen[m] && have[fileOf(m)] {
+	byName := map[string]bool{}
+	var rest []string
+	var all []*yang.Module
+	for k, mm := range []map[string]*yang.Module{ms.Modules, ms.SubModules} {
+		for _, m := range mm {
+			if seen[m] {
+				continue
+			}
 			seen[m] = true
-			start = append(start, m)
-		}
-	}
-	sort.SliceStable(start, func(i, j int) bool { return start[i].FullName() < start[j].FullName() })
-	find := func(mm map[string]*yang.Module, name string, rd *yang.Value) *yang.Module {
-		if rd != nil {
-			if n := mm[name+"@"+rd.Name]; n != nil {
-				return n
+			all = append(all, m)
+			n := fileOf(m)
+			present[n] = true
+			rest = append(rest, n)
+			key := fmt.Sprint(k, " ", m.Name)
+			if byName[key] && why == "" {
+				why = "two loaded (sub)modules named " + m.Name
 			}
+			byName[key] = true
 		}
-		return mm[name]
 	}
-	visited := map[*yang.Module]bool{}
-	var visit func(m *yang.Module) bool
-	visit = func(m *yang.Module) bool {
-		if visited[m] {
-			return true
+	// explained by the linking walk: the handed-over modules (the walk starts at modules only) and
+	// what is reachable from them through linked statements
+	explained := map[*yang.Module]bool{}
+	var reach func(m *yang.Module)
+	reach = func(m *yang.Module) {
+		if m == nil || explained[m] {
+			return
 		}
-		visited[m] = true
+		explained[m] = true
 		for _, i := range m.Include {
-			im := find(ms.SubModules, i.Name, i.RevisionDate)
-			if im == nil {
-				return false
-			}
-			add(fileOf(im))
-			if !visit(im) {
-				return false
-			}
+			reach(i.Module)
 		}
 		for _, i := range m.Import {
-			im := find(ms.Modules, i.Name, i.RevisionDate)
-			if im == nil {
-				return false
-			}
-			add(fileOf(im))
-			if !visit(im) {
-				return false
-			}
+			reach(i.Module)
 		}
-		return true
 	}
-	for _, m := range start {
-		visit(m)
+	for _, m := range all {
+		if isRoot[fileOf(m)] && m.BelongsTo == nil {
+			reach(m)
+		}
 	}
-	var rest []string
-	for _, mm := range []map[string]*yang.Module{ms.Modules, ms.SubModules} {
-		for _, m := range mm {
-			if n := fileOf(m); !have[n] {
-				rest = append(rest, n)
-			}
+	for _, m := range all {
+		if !explained[m] && !isRoot[fileOf(m)] {
+			late = append(late, m.FullName())
+		}
+	}
+	sort.Strings(late)
+	if len(late) > 0 {
+		why = "read from the path after the linking walk: " + strings.Join(late, ", ")
+	}
+	for _, i := range roots {
+		if present[c.Names[i]] {
+			add(c.Names[i])
 		}
 	}
 	sort.Strings(rest)
 	for _, n := range rest {
 		add(n)
 	}
-	return loaded
+	return loaded, late, why
 }
 
 // loadedCase is the case the model is asked with for a files-on-disk case: the texts that ended
@@ -330,6 +350,9 @@ type Outcome struct {
 	Model    []string
 	Outside  string // reason when the model declines the input
 	Skipped  string // "parse" when Go rejected a text
+	// NoModel: why the model was not asked although Go ran (files-on-disk runs whose loading the
+	// model cannot mirror, see loadedOrder); the Go-side findings are valid all the same.
+	NoModel string
 	// LoadResults: per text, what the Lean text pipeline decided (only for text requests).
 	LoadResults []string
 }
@@ -361,7 +384,11 @@ func RunAll(cases []Case, f *lib.Flags) []Outcome {
 			continue
 		}
 		if FromPath(c) {
-			// the model gets exactly the texts that ended up loaded, in the order Go loaded them
+			if w := outs[i].Go.Extra["no_model"]; len(w) > 0 {
+				outs[i].NoModel = w[0]
+				continue
+			}
+			// the model gets exactly the texts that ended up loaded (roots first, then by name)
 			lc := loadedCase(c, outs[i].Go.Extra["loaded"])
 			if lc == nil {
 				outs[i].Skipped = "from_path: loaded set not reconstructible"
@@ -461,6 +488,21 @@ func Replay(f *lib.Flags, hook Hook, keys []string) {
 	if o.Crashed {
 		fmt.Println("goyang crashed:", o.CrashMsg)
 		os.Exit(1)
+	}
+	if o.NoModel != "" {
+		fmt.Println("model not asked:", o.NoModel)
+		for _, r := range lib.Project(o.Go.Dump, keys, true) {
+			fmt.Println("  ", Readable(r))
+		}
+		for _, x := range o.Go.Findings {
+			fmt.Println("finding:", x)
+		}
+		if len(o.Go.Findings) > 0 {
+			fmt.Println("DIFFERENT: findings of the Go-side oracle")
+			os.Exit(1)
+		}
+		fmt.Println("same (oracle only)")
+		return
 	}
 	g := lib.Project(o.Go.Dump, keys, true)
 	m := lib.Project(o.Model, keys, true)
